@@ -33,6 +33,7 @@ const (
 	srcRipple = 12
 	srcEth    = 13
 	srcBsc    = 14
+	srcBtc0   = 15 // three bitcoin chains (15, 16, 17), each with one confirmed deposit
 	dstEth    = 20
 	dstVote   = 21
 	dstLate   = 22 // registered only in the middle of some histories
@@ -57,6 +58,7 @@ type hist struct {
 	router   map[uint64]string
 	asset    map[uint64][]byte // ripple asset binding per destination
 	evm      []*evmSrc
+	btc      []*cs.BTCSource
 	evmUsed  map[string]bool
 	bad      bool
 }
@@ -77,6 +79,7 @@ type tpl struct {
 	outs  []*pk.Key
 	asset map[uint64][]byte
 	evm   []*evmSrc
+	btc   []*cs.BTCSource
 	uses  int
 }
 
@@ -172,6 +175,15 @@ func newHist(r *kit.Run, rng *rand.Rand, netID uint32, nVals int) *hist {
 			}
 			t.evm = append(t.evm, src)
 		}
+		// bitcoin sources: one chain per deposit (the trust root is the single-transaction block holding it)
+		for i := 0; i < 3; i++ {
+			b, err := w.NewBTCSource(krng, uint64(srcBtc0+i), []uint64{dstEth, dstVote, srcVoteA}[i])
+			if err != nil {
+				r.Inconclusive("btc source: " + err.Error())
+				return nil
+			}
+			t.btc = append(t.btc, b)
+		}
 		t.snap = w.Snapshot()
 		pool[key] = t
 		r.Count("universes_built", 1)
@@ -180,8 +192,8 @@ func newHist(r *kit.Run, rng *rand.Rand, netID uint32, nVals int) *hist {
 	config.DefConfig.P2PNode.NetworkId = netID
 	t.w.Restore(t.snap)
 	return &hist{r: r, rng: rng, w: t.w, vm: cs.NewVoteModel(), outs: t.outs, done: map[msgKey]bool{}, releases: map[msgKey]int{},
-		router: map[uint64]string{srcVoteA: "vote", srcVoteB: "vote", srcRipple: "ripple", srcEth: "eth", srcBsc: "bsc"}, asset: t.asset,
-		evm: t.evm, evmUsed: map[string]bool{}}
+		router: map[uint64]string{srcVoteA: "vote", srcVoteB: "vote", srcRipple: "ripple", srcEth: "eth", srcBsc: "bsc", srcBtc0: "btc", srcBtc0 + 1: "btc", srcBtc0 + 2: "btc"}, asset: t.asset,
+		evm: t.evm, btc: t.btc, evmUsed: map[string]bool{}}
 }
 
 // body draws a message from source towards to with the given cross-chain id. For the ripple
@@ -332,10 +344,13 @@ func (h *hist) submit(kind string, source uint64, height uint32, extra []byte, p
 // of its (source, cross-chain id)) must succeed, create exactly the done marker and release once;
 // anything else must fail with unchanged state.
 func (h *hist) evmCall(kind string, src *evmSrc, p *es.TxParam, wantAccept bool, call func() *natRec) bool {
+	return h.proofCall(kind, src.name, src.s.Spec.ID, p, wantAccept, call)
+}
+
+// proofCall is the judge of one proof-authenticated import of router rt from chain source.
+func (h *hist) proofCall(kind, rt string, source uint64, p *es.TxParam, wantAccept bool, call func() *natRec) bool {
 	r := h.r
-	source := src.s.Spec.ID
 	key := msgKey{source, string(p.CrossChainID)}
-	rt := src.name
 	o := h.w.Do(call)
 	r.Eval(1)
 	h.logf("%s src=%d(%s) cross=%s to=%d -> ok=%v err=%q touched=%v leaves=%d", kind, source, rt, short(p.CrossChainID), p.ToChainID, o.Rec.Ok, o.Rec.Err, o.Touched(), len(o.Rec.CrossHashes))
@@ -475,6 +490,78 @@ func (h *hist) evmFailedFirst() bool {
 	return true
 }
 
+// btcScenario: a Bitcoin deposit (identified by its source chain and transaction id) is imported once;
+// optional failing first attempts (damaged Merkle proof, wrong height, truncated transaction,
+// blacklisted destination), then the valid import in one of its serialisations, then replays in
+// every serialisation of the same transaction (identical bytes, witness stripped, other witness).
+func (h *hist) btcScenario() bool {
+	var b *cs.BTCSource
+	for _, c := range h.btc {
+		k := fmt.Sprintf("btc/%d", c.Spec.ID)
+		if !h.evmUsed[k] {
+			h.evmUsed[k] = true
+			b = c
+			break
+		}
+	}
+	if b == nil {
+		return false
+	}
+	src := b.Spec.ID
+	p := &es.TxParam{CrossChainID: b.TxID(), ToChainID: b.Target} // the deposit's identity
+	withW, stripped, otherW := b.Encodings(h.rng)
+	encs := [][]byte{withW, stripped, otherW}
+	names := []string{"with-witness", "witness-stripped", "other-witness"}
+	for k := h.rng.Intn(3); k > 0 && !h.bad; k-- {
+		raw := encs[h.rng.Intn(3)]
+		switch h.rng.Intn(4) {
+		case 0:
+			bad := append([]byte{}, b.Proof...)
+			// inside the partial tree's hash list (80-byte header, 4-byte tx count, 1-byte hash count, then
+			// the hashes); the header copy inside the proof is informational, the tree is what is verified
+			bad[85+h.rng.Intn(32)] ^= 0x40
+			h.proofCall("first-damaged-proof", "btc", src, p, false, func() *natRec { return b.Import(raw, b.Height, bad) })
+		case 1:
+			h.proofCall("first-unknown-height", "btc", src, p, false, func() *natRec { return b.Import(raw, b.Height+1+uint32(h.rng.Intn(5)), b.Proof) })
+		case 2:
+			h.proofCall("first-malformed", "btc", src, p, false, func() *natRec { return b.Import(raw[:len(raw)/2], b.Height, b.Proof) })
+		case 3:
+			if rec := h.w.Black(b.Target); !rec.Ok {
+				h.r.Inconclusive("black: " + rec.Err)
+				return true
+			}
+			h.logf("blacked %d", b.Target)
+			h.proofCall("first-dest-blacked", "btc", src, p, false, func() *natRec { return b.Import(raw, b.Height, b.Proof) })
+			if rec := h.w.White(b.Target); !rec.Ok {
+				h.r.Inconclusive("white: " + rec.Err)
+				return true
+			}
+			h.logf("whited %d", b.Target)
+		}
+		if h.w.Done(src, p.CrossChainID) {
+			h.violation("failed-attempt-left-done-marker", "after a failed first attempt on router btc")
+		}
+	}
+	if h.bad {
+		return true
+	}
+	first := h.rng.Intn(3)
+	if !h.proofCall("fresh:"+names[first], "btc", src, p, true, func() *natRec { return b.Import(encs[first], b.Height, b.Proof) }) {
+		return true
+	}
+	for _, i := range h.rng.Perm(3) {
+		if h.bad {
+			break
+		}
+		if i == first {
+			h.proofCall("replay-same", "btc", src, p, false, func() *natRec { return b.Import(encs[i], b.Height, b.Proof) })
+		} else {
+			h.proofCall("replay-other-serialisation", "btc", src, p, false, func() *natRec { return b.Import(encs[i], b.Height, b.Proof) })
+		}
+	}
+	return true
+}
+
 // doneKeys lists the done-marker keys in committed storage.
 func (h *hist) doneKeys() [][]byte {
 	var out [][]byte
@@ -597,7 +684,14 @@ func runHistory(r *kit.Run, rng *rand.Rand, nVals int, idx int) {
 		if rng.Intn(3) == 0 {
 			h.w.E.Height += uint32(rng.Intn(3))
 		}
-		kind := rng.Intn(13)
+		kind := rng.Intn(14)
+		if kind == 13 {
+			if h.btcScenario() {
+				shape += "T"
+				continue
+			}
+			kind = 0
+		}
 		if len(acc) == 0 && kind >= 1 && kind <= 4 {
 			kind = 0
 		}
@@ -820,10 +914,10 @@ func TestC20(t *testing.T) {
 		}
 	}
 	otherNetworks(r)
-	r.Set("routers_covered", []string{"vote (consensus_vote)", "ripple (as source)", "eth (ethash seal bypassed by the verif hook; header rules and Merkle-Patricia proofs real)", "bsc (really sealed Parlia headers)"})
-	r.Set("routers_uncovered", []string{"heco", "hsc", "msc", "pixiechain", "polygon bor", "bytom", "quorum", "cosmos", "okex", "ont", "neo", "neo3", "neo3legacy", "btc", "zilliqa", "zilliqalegacy", "starcoin", "harmony (BLS stub)"})
+	r.Set("routers_covered", []string{"vote (consensus_vote)", "ripple (as source)", "eth (ethash seal bypassed by the verif hook; header rules and Merkle-Patricia proofs real)", "bsc (really sealed Parlia headers)", "btc (vault bound through registerRedeem, single-transaction block as trust root, segwit deposit replayed in every serialisation of the same transaction)"})
+	r.Set("routers_uncovered", []string{"heco", "hsc", "msc", "pixiechain", "polygon bor", "bytom", "quorum", "cosmos", "okex", "ont", "neo", "neo3", "neo3legacy", "zilliqa", "zilliqalegacy", "starcoin", "harmony (BLS stub)"})
 	r.Assume("every second validator's pool entry is registered by a separate wallet account (registered address != node-key address); validators are identified by the key-derived address, the wallet accounts vote as outsiders")
-	r.Assume("routers other than vote / ripple-as-source / eth / bsc reach the same CheckDoneTx/PutDoneTx pair after their proof verification; their deposits are not synthesised in this check (proof logic is covered by C23/C30/C31), so the verdict holds for the four routers exercised only")
+	r.Assume("routers other than vote / ripple-as-source / eth / bsc / btc reach the same CheckDoneTx/PutDoneTx pair after their proof verification; their deposits are not synthesised in this check (proof logic is covered by C23/C30/C31), so the verdict holds for the five routers exercised only")
 	r.Assume("for the vote-authenticated routers a 'submission' is a voting round; it is decided at the call that brings the distinct-validator count to ceil(2N/3). Votes before that call may record themselves (voteInfo only); a repeated round on an already released subject may return success but must change nothing")
 	r.Assume("failure atomicity of a single call is provided by the transaction layer (C15); the driver reproduces HandleInvokeTransaction")
 	nhq := int(r.Get("histories"))
@@ -834,6 +928,9 @@ func TestC20(t *testing.T) {
 	r.Require("replay_of_empty_cross_chain_id_rejected", nhq/20)
 	r.Require("accepted_with_long_cross_chain_id", nhq/20)
 	r.Require("histories_with_event_log_disabled", nhq/6)
+	r.Require("accepted:btc", nhq/8)
+	r.Require("rejected:btc", nhq/4)
+	r.Require("rejected:replay-other-serialisation", nhq/8)
 	r.Require("accepted:eth", nhq/8)
 	r.Require("accepted:bsc", nhq/8)
 	r.Require("rejected:eth", nhq/4)
